@@ -451,3 +451,74 @@ def _c20_logical_branch(fa, v, case, recs, one_schema, sh, seed):
     if not any(x in v[1] for x in ("OverflowError", "ValueError", "out of range")):
         return False
     return one_schema(sh.__class__("C20", {}), fa, random.Random(seed), strip_logical(js), set()) is None
+
+
+# ======================================================================
+# bytes / fixed defaults used verbatim (C01, C02, C08, C10)
+# ======================================================================
+def bytes_default_fields(node, seen=None, out=None):
+    """(record full name, field name) of every field whose default holds a string meant for bytes/fixed."""
+    from .ref.schema import deref
+    from .ref import conform as RC
+
+    seen = seen if seen is not None else set()
+    out = out if out is not None else set()
+    d = deref(node)
+    if d.kind == "record":
+        if d.name in seen:
+            return out
+        seen.add(d.name)
+        for f in d.fields:
+            if f.has_default and RC.default_datum(f.type, f.default) != f.default:
+                out.add((d.name, f.name))
+            bytes_default_fields(f.type, seen, out)
+    elif d.kind == "array":
+        bytes_default_fields(d.items, seen, out)
+    elif d.kind == "map":
+        bytes_default_fields(d.values, seen, out)
+    elif d.kind == "union":
+        for b in d.branches:
+            bytes_default_fields(b, seen, out)
+    return out
+
+
+def strip_field_defaults(js, pairs):
+    """The schema without the defaults of the given (record full name, field name) pairs."""
+    def walk(n, ns):
+        if isinstance(n, list):
+            return [walk(b, ns) for b in n]
+        if isinstance(n, dict):
+            t = n.get("type")
+            out = dict(n)
+            if t == "array":
+                out["items"] = walk(n["items"], ns)
+            elif t == "map":
+                out["values"] = walk(n["values"], ns)
+            elif t in ("record", "error"):
+                space, full = split_name(n, ns)
+                fields = []
+                for f in n.get("fields", []):
+                    g = dict(f, type=walk(f["type"], space))
+                    if (full, f["name"]) in pairs:
+                        g.pop("default", None)
+                    fields.append(g)
+                out["fields"] = fields
+            return out
+        return n
+
+    return walk(copy.deepcopy(js), "")
+
+
+def neutralise_bytes_defaults(case):
+    """Neutralising edit of 'bytes-default-used-verbatim': the data get every omitted
+    defaulted field explicitly (default converted per the specification) and the
+    schema loses the defaults that hold strings meant for bytes/fixed."""
+    from .ref import schema as RS
+    from .ref import conform as RC
+
+    node = case["node"]
+    pairs = bytes_default_fields(node)
+    datum = RC.fill_defaults(node, case["datum"])
+    js2 = strip_field_defaults(case["schema"], pairs)
+    node2, env2 = RS.build(js2)
+    return dict(case, schema=js2, node=node2, env=env2, datum=datum)
